@@ -377,7 +377,7 @@ def check_c18(v, tier):
     # (c) model: Readers.tla - N concurrent readers over one shared forest, all interleavings
     mc = None
     if os.path.exists(os.path.join(SPEC, "mechanisms", "Readers.cfg")):
-        mc = run_mc("mechanisms/Readers")
+        mc = run_mc("mechanisms/Readers" if tier == "quick" else "mechanisms/Readers3")
         add_mc(v, mc, "TLC explores every interleaving of concurrent reader cursor machines over one shared forest: each reader's output equals the sequential one; no action writes the forest")
     # (d) binding: real threads on real arenas
     cfg = "Gen_s4g1"
